@@ -24,6 +24,10 @@ Weight laws with a huge dynamic range inside one graph (RANGE_KINDS; part_range)
 matching exactly there; the float allowance REL_TOL is therefore tied to binary64 noise (1e-12 * n * max|w|), not to 1e-9.
 The failing-input search adds dynamic-range variants of the recorded graph (one pair re-written with a 1e10 / 1e12
 penalty) and a fixed family of small graphs of every weight law.
+The Blossom V backend path is exercised through a STAND-IN library (qv/c13_standin.py, qv/c13_pypm_standin.c): the real
+wrapper code runs in child processes, Blossom V itself is replaced and stays unverified.
+Node kinds include orderable-but-not-totally-ordered objects (Timed, frozensets); weight laws include uniformly tiny
+weights (k * 2**-e judged exactly, k * 10**-e judged relative to max|w| — the tolerance has no absolute floor).
 LEVEL = 'proof' refers to the wrapper + oracle theorems only.
 """
 import itertools
@@ -61,7 +65,14 @@ RULE = ('(a) random insertion sequences into the real SimpleGraph (nodes: ints, 
         'twice, empty graphs in between; after every call the returned set is updated in place (add / clear / discard / '
         'union with earlier results); every answer judged by the verified monitors, sets returned earlier must keep '
         'their value and identity is never re-used, a sample compared with the answer of a fresh process; '
-        '(e) weight_to_int_fn branch + rounding with blossom5.infty patched. '
+        '(e) weight_to_int_fn branch + rounding with blossom5.infty patched; (g) the Blossom V backend path (gt.mwpm '
+        'dispatch, gt.mwpm_blossom5, blossom5.mwpm, blossom5.mwpm_ids) executed in child processes against a stand-in '
+        'libpypm.so compiled per run (exact DP on the ints it receives; infty 2**30 and 1000), loaded via $QECSIM_CFG: '
+        'SimpleGraph / dict / edge-list inputs, 7 node kinds, ints, floats, tiny floats, bools, zeros, negatives, all-int '
+        'graphs mixing tiny weights with weights >= infty/10 (multiples of 2**32, C-int limits, the threshold), parallel '
+        'edges, empty inputs, call histories, decoder graphs; every answer: perfect matching, minimum ORIGINAL weight '
+        'within the documented scaling allowance (n/2)/s (exact when the documented rule is the identity), minimum INTEGER '
+        'weight as handed over (Lean oracle, exact), handed integer weights = model weight_to_int. '
         'non-trivial = graph with >= 4 nodes or an insertion sequence with a re-inserted pair')
 
 
@@ -75,9 +86,30 @@ class Obj:
         self.index = index
 
 
+class Timed:
+    """identity-hashed node object that is ORDERABLE by a time step several nodes share (what one adds for heapq /
+    sorted): `<` is defined but not total — for two nodes of one time step neither a < b nor b < a"""
+    __slots__ = ('t', 'index')
+
+    def __init__(self, t, index):
+        self.t, self.index = t, index
+
+    def __lt__(self, other):
+        return self.t < other.t
+
+
+NODE_KINDS = ['int', 'tuple', 'obj', 'mixed', 'timed', 'fset', 'str']
+
+
 def make_nodes(rng, n, kind):
     if kind == 'int':
         return list(range(100, 100 + n))
+    if kind == 'timed':     # orderable, identity-hashed, three nodes per time step
+        return [Timed(i // 3, i) for i in range(n)]
+    if kind == 'fset':      # hashable, only partially ordered by `<` (subset): chains and incomparable pairs
+        return [frozenset(range(i + 1)) if i % 4 == 0 else frozenset((('a', i), ('b', i // 2))) for i in range(n)]
+    if kind == 'str':
+        return ['v{}'.format(i * 7 % 13) + 'x' * (i % 3) + str(i) for i in range(n)]
     if kind == 'tuple':
         pool = [(r, c) for r in range(-2, 6) for c in range(-2, 6)]
         rng.shuffle(pool)
@@ -211,7 +243,7 @@ def py_property(n_nodes, wdict, pairs):
         return 'node {} occurs {} times in the matching'.format(
             next(i for i, c in enumerate(seen) if c != 1), next(c for c in seen if c != 1))
     if n_nodes <= DP_MAX_NODES:
-        scale = max([abs(w) for w in wdict.values()] + [Fraction(1)]) * n_nodes
+        scale = max([abs(w) for w in wdict.values()] + [Fraction(0)]) * n_nodes
         if best is not None and tot - best > Fraction(REL_TOL) * scale:
             return 'total weight {} exceeds the minimum over perfect matchings {}'.format(tot, best)
     return None
@@ -244,13 +276,22 @@ def gen_weight(rng, kind):
 
 # weight laws with a huge dynamic range INSIDE one graph (drawn per graph, not per edge): penalty edges of 1e6 … 1e12
 # next to small weights whose differences are far below 1e-9 of the maximum
-RANGE_KINDS = ['range-dyadic', 'range-float', 'range-mixed', 'range-neg', 'range-log', 'range-2scale']
+RANGE_KINDS = ['range-dyadic', 'range-float', 'range-mixed', 'range-neg', 'range-log', 'range-2scale',
+               'tiny-dyadic', 'tiny-float']
 
 
 def weight_sampler(rng, kind):
     """per-graph weight law: returns a 0-ary function drawing one weight"""
     if kind not in RANGE_KINDS:
         return lambda: gen_weight(rng, kind)
+    if kind == 'tiny-dyadic':      # every weight k * 2**-e: uniformly tiny, all sums exact in binary64 (judged exactly)
+        unit = 2.0 ** -rng.choice([55, 60, 64, 100, 200, 600])
+        lo = rng.choice([0, 1, 1, -20])
+        return lambda: unit * rng.randint(lo, 50)
+    if kind == 'tiny-float':       # every weight k * 10**-e, e = 17 .. 200: differences far below the ulp of 1.0
+        unit = 10.0 ** -rng.choice([17, 18, 18, 24, 30, 30, 60, 100, 200])
+        lo = rng.choice([0, 1, 1, -20])
+        return lambda: unit * rng.choice([rng.randint(lo, 50), rng.randint(lo, 50), rng.uniform(lo, 50)])
     k = rng.uniform(6, 12)
     pen_int = rng.choice([10 ** round(k), 2 ** round(k * 3.3219), rng.randint(10 ** 6, 10 ** 12)])
     p_pen = rng.choice([0.1, 0.25, 0.5])
@@ -277,10 +318,19 @@ def weight_sampler(rng, kind):
     return lambda: rng.choice([1, 1, 1, -1]) * 10.0 ** rng.uniform(-6, 12)
 
 
+def exact_weights(ws):
+    """are all partial sums of these weights exact in binary64?  They are when every weight is an integer multiple
+    k * u of one power of two u with |k| < 2**48 (ints below 2**48, dyadics with denominators up to 16 below 2**44,
+    and also uniformly TINY weights k * 2**-60)"""
+    ws = [fr(w) for w in ws]
+    den = max([w.denominator for w in ws] + [1])
+    return den & (den - 1) == 0 and all(abs(w) * den < 2 ** 48 for w in ws)
+
+
 def exact_kind(kind, ops):
-    """are all partial sums exact in binary64?  (ints below 2**53/16, dyadics with denominators up to 16)"""
+    """are all partial sums exact in binary64?  Judged on the weights the graph finally holds (last write per pair)"""
     if kind in ('float', 'mixed') or kind in RANGE_KINDS:
-        return all(fr(w).denominator <= 16 and abs(w) < 2 ** 44 for _, _, w in ops)
+        return exact_weights(last_write(ops).values())
     return True
 
 
@@ -439,7 +489,7 @@ def check_case(ctx, kind, wire_op, items, mates, n_nodes, exact, meta):
         ctx.monitor_fail('gt.mwpm result is ' + mates, meta, key=None)
         return
     w = py_weight(items, mates)
-    scale = None if exact else max([abs(fr(x)) for _, x in items] + [Fraction(1)]) * max(n_nodes, 1)
+    scale = None if exact else max([abs(fr(x)) for _, x in items] + [Fraction(0)]) * max(n_nodes, 1)
     impl = 'pm=1 opt=1 w=' + (rat(w) if w is not None else 'nonedge')
     ctx.case(wire_op + ' ' + mates_wire(mates), impl, nontrivial=(n_nodes >= 4), meta=meta,
              post=make_post_check(scale, impl, ctx))
@@ -458,7 +508,7 @@ def part_build(ctx):
     rng = ctx.rng
     for it in range(ctx.scale(1500, 20000)):
         n = rng.choice([1, 2, 2, 3, 3, 4, 5, 8])
-        nk = rng.choice(['int', 'tuple', 'obj', 'mixed'])
+        nk = rng.choice(NODE_KINDS)
         nodes = make_nodes(rng, n, nk)
         wk = rng.choice(WKINDS + RANGE_KINDS[:2])
         draw = weight_sampler(rng, wk)
@@ -545,13 +595,13 @@ def part_planted(ctx):
     for it in range(ctx.scale(2500, 25000)):
         n = rng.choice([2, 2, 4, 4, 4, 6, 6, 6, 8, 8, 10])
         one_planted(ctx, n, rng.choice(['complete', 'sparse', 'few', 'path']), rng.choice(WKINDS),
-                    rng.choice(['int', 'tuple', 'obj', 'mixed']), rng.random() < 0.6, 'planted')
+                    rng.choice(NODE_KINDS), rng.random() < 0.6, 'planted')
     for it in range(ctx.scale(120, 1000)):
         n = rng.choice([12, 12, 14] + ([16] if nmax >= 16 and it % 10 == 0 else []))
         shape = rng.choice(['complete', 'sparse', 'sparse', 'few', 'path'])
         if n >= 16 and shape == 'complete':
             shape = 'sparse'
-        one_planted(ctx, n, shape, rng.choice(WKINDS), rng.choice(['tuple', 'obj']), rng.random() < 0.6, 'planted')
+        one_planted(ctx, n, shape, rng.choice(WKINDS), rng.choice(['tuple', 'obj', 'timed', 'fset']), rng.random() < 0.6, 'planted')
 
 
 def part_range(ctx):
@@ -563,7 +613,7 @@ def part_range(ctx):
         if it % 40 == 39:
             n = rng.choice([12, 14])
         shape = rng.choice(['complete', 'complete', 'sparse', 'few', 'path'])
-        one_planted(ctx, n, shape, RANGE_KINDS[it % len(RANGE_KINDS)], rng.choice(['int', 'tuple', 'obj', 'mixed']),
+        one_planted(ctx, n, shape, RANGE_KINDS[it % len(RANGE_KINDS)], rng.choice(NODE_KINDS),
                     rng.random() < 0.4, 'range')
 
 
@@ -827,7 +877,7 @@ def all_int(ops):
 
 
 def hist_exact(ops):
-    return all_int(ops) or all(fr(w).denominator <= 16 and abs(w) < 2 ** 44 for _, _, w in ops)
+    return all_int(ops) or exact_weights(last_write(ops).values())
 
 
 def graph_fn(name):
@@ -1104,7 +1154,7 @@ def part_history(ctx):
         if stop:
             break
         n = rng.choice([4, 4, 4, 6, 6, 8])
-        nk = rng.choice(['tuple', 'tuple', 'int', 'obj', 'mixed'])
+        nk = rng.choice(['tuple', 'tuple', 'int', 'obj', 'mixed', 'timed', 'fset', 'str'])
         hkind, steps = gen_history(rng, n)
         nodes = make_nodes(rng, n, nk)
         ids = {x: i for i, x in enumerate(nodes)}
@@ -1168,7 +1218,7 @@ def part_history(ctx):
                 lw_items = [((min(p), max(p)), w) for p, w in last_write(ops).items()]
                 w = py_weight(lw_items, cm)
                 fresh_jobs.append(({'step': dict(st, reuse=0, after=['none']), 'nodes': nk, 'n': n},
-                                   w, hist_exact(ops), meta, max([abs(fr(x)) for _, _, x in ops] + [Fraction(1)]) * n))
+                                   w, hist_exact(ops), meta, max([abs(fr(x)) for _, _, x in ops] + [Fraction(0)]) * n))
             apply_after(st, r, nodes, [e[0] for e in earlier])
             if isinstance(r, set):
                 earlier.append([r, set(r)])
@@ -1201,8 +1251,19 @@ def run(ctx):
     ctx.assumptions = [
         'networkx max_weight_matching (Edmonds blossom algorithm, outside /repo) is NOT modelled or proved: its output '
         'is tested against the proved oracle minPM on every generated / captured graph',
-        'Blossom V C library (libpypm.so) is absent in this sandbox: blossom5.available() = {} ; only the networkx '
-        'backend of gt.mwpm runs; mwpm_blossom5 / blossom5.mwpm_ids are not exercised'.format(blossom5.available()),
+        'Blossom V C library (libpypm.so) is absent in this sandbox: blossom5.available() = {} in the harness process, '
+        'where only the networkx backend of gt.mwpm runs. The Blossom path of qecsim (gt.mwpm dispatch, gt.mwpm_blossom5, '
+        'weight_to_int_fn scaling, blossom5.mwpm / mwpm_ids: node <-> id mapping, ctypes arrays, mates set) is executed in '
+        'child processes against a STAND-IN libpypm.so compiled on every run from harness/qv/c13_pypm_standin.c (same C '
+        'interface; exact bitmask-DP minimum-weight perfect matching on the ints it receives, 64-bit sums, <= 20 nodes; '
+        'infty() = 2**30 and, in a second build, 1000) and loaded through the documented $QECSIM_CFG/clib/libpypm.so. The '
+        'stand-in REPLACES Blossom V, which remains outside /repo and unverified: nothing is claimed about Blossom V\'s own '
+        'optimality, its int overflow behaviour or its real infty() value; the stand-in itself is trusted only as far as '
+        'its answers are re-checked (every answer is judged by the verified Lean oracle / the Python DP)'.format(
+            blossom5.available()),
+        'Blossom path, float or large-int weights: the docstring of weight_to_int_fn promises scaling by s = infty/10/max|w| '
+        'and rounding to integers, so optimality on the ORIGINAL weights is claimed only up to (n/2)(1+1e-6)/s; exact when '
+        'the documented rule is the identity (all Python ints, max|w| < infty/10) or all weights are zero',
         'weights are compared as exact rationals Fraction(w); when binary64 sums of the weights are not exact the '
         'weight of the real matching may exceed the exact minimum by at most {} * n * max|w|'.format(REL_TOL),
         'node objects are numbered by the harness in insertion order; hashing/equality of tuples and identity-hashed '
@@ -1221,6 +1282,11 @@ def run(ctx):
     part_history(ctx)
     n3 = ctx.evaluations
     part_w2i(ctx)
+    n4 = ctx.evaluations
+    from qv import c13_standin
+    st = c13_standin.part_standin(ctx)
+    if blossom5.available() is not False:
+        ctx.count('standin.state', 'harness process sees a library: available() = {}'.format(blossom5.available()))
     ctx.explored = {
         'networkx_edmonds_vs_verified_oracle': {
             'evaluations': (n2 - n1) + (n3 - n2),
@@ -1239,8 +1305,22 @@ def run(ctx):
             'evaluations': ctx.extra.get('dp_checked', 0),
             'rule': 'independent (unverified) Python bitmask DP as oracle for captured decoder graphs too large for '
                     'the verified oracle', 'exhaustive': False},
+        'blossom_backend_wrapper_on_standin_library': {
+            'evaluations': st['evaluations'],
+            'rule': ('NOT RUN: no C compiler, the Blossom path is not exercised' if not st['built'] else
+                     'real gt.mwpm (dispatch to Blossom), gt.mwpm_blossom5, blossom5.mwpm, blossom5.mwpm_ids in child '
+                     'processes on the stand-in libpypm.so (infty 2**30 and 1000): SimpleGraph / dict / edge-list input, '
+                     '7 node kinds, small ints, floats, tiny floats, bools, zeros, negatives, all-int graphs mixing tiny '
+                     'weights with weights >= infty/10 (multiples of 2**32, C-int limits, the threshold itself), '
+                     'parallel edges, empty inputs, call histories (hash-colliding weights, reused graph objects, caller '
+                     'mutations), graphs built by the five MWPM decoders; every answer judged by the Python DP (<= 16 '
+                     'nodes) and by the Lean driver (<= 14 nodes): perfect matching of minimum ORIGINAL weight within '
+                     'the documented rounding allowance, of minimum INTEGER weight as handed to the C library (exact), '
+                     'and the handed integer weights = model weight_to_int (w2i). Blossom V itself is replaced, not '
+                     'verified'),
+            'exhaustive': False},
         'weight_to_int_fn_float_ops': {
-            'evaluations': ctx.evaluations - n3,
+            'evaluations': n4 - n3,
             'rule': 'branch + rounding modelled; float quotient and product supplied by the harness',
             'exhaustive': False},
     }
@@ -1290,8 +1370,10 @@ def float_ops(ops):
     return [(a, b, int(w) if w.denominator == 1 else float(w)) for a, b, w in ops]
 
 
-def found_ops(v, r):
-    return {'what': 'gt.mwpm on the graph built by this insertion sequence: ' + r[0],
+def found_ops(v, r, node_kind='obj'):
+    return {'what': 'gt.mwpm on the graph built by this insertion sequence (node objects: make_nodes(Random(0), n, {!r})): '
+                    .format(node_kind) + r[0],
+            'nodes': node_kind,
             'ops': [[a, b, str(Fraction(w))] for a, b, w in v],
             'ops_repr': [[a, b, repr(w)] for a, b, w in v],
             'returned': r[1] if isinstance(r[1], str) else mates_wire(r[1]),
@@ -1314,9 +1396,10 @@ def search_std():
             draw = weight_sampler(rng, wk)
             edges = gen_planted(rng, n, rng.choice(['complete', 'complete', 'sparse', 'few']), wk, draw)
             ops = [(a, b, w) for a, b, w in edges]
-            r = eval_property_on_ops(ops)
+            nk = NODE_KINDS[it % len(NODE_KINDS)]
+            r = eval_property_on_ops(ops, nk)
             if r and r[0]:
-                _STD['r'] = found_ops(ops, r)
+                _STD['r'] = found_ops(ops, r, nk)
                 break
     return _STD['r']
 
@@ -1348,10 +1431,12 @@ def search(m):
             filler = [(i, j, 10) for i, j in itertools.combinations(range(n), 2)]
             variants = [filler + v for v in variants] + [filler + v + [(a, b, w)] for v in variants[:1]
                                                          for a, b in pairs[:12] for w in (-1000, 1000)]
+        nk = meta.get('nodes', 'obj')
         for v in variants:
-            r = eval_property_on_ops(v)
-            if r and r[0]:
-                return found_ops(v, r)
+            for kind in ([nk] if nk == 'obj' else [nk, 'obj']):
+                r = eval_property_on_ops(v, kind)
+                if r and r[0]:
+                    return found_ops(v, r, kind)
         return search_std()
     if part == 'decoder':
         f = dict(x.split('=') for x in m['model'].split(' ') if '=' in x)
@@ -1367,7 +1452,39 @@ def search(m):
         return None
     if part == 'empty':
         return {'what': 'empty graph: gt.mwpm result is ' + m['impl'], 'graph': '{}'}
+    if part == 'standin':
+        from qv import c13_standin
+        return c13_standin.search(m)
+    if part == 'w2i':
+        return search_w2i(meta)
     return None
+
+
+def search_w2i(meta):
+    """a weight_to_int_fn break (part e, infty patched): the property itself is evaluated on the Blossom path with the
+    stand-in library, on graphs that carry the recorded weights (cycled over a complete graph) and near variants"""
+    from qv import c13_standin
+    try:
+        ws = [parse_w(w) for w in meta.get('weights') or []]
+    except ValueError:
+        return None
+    if not ws:
+        return None
+    out = None
+    for inf in c13_standin.INFTYS:
+        inputs = []
+        for n in (4, 6):
+            pairs = list(itertools.combinations(range(n), 2))
+            for shift in (0, 1, 2):
+                ops = [[a, b, repr(ws[(i + shift) % len(ws)])] for i, (a, b) in enumerate(pairs)]
+                for fn in ('mwpm_blossom5', 'mwpm'):
+                    inputs.append({'standin': inf, 'fn': fn, 'kind': 'simple', 'ops_repr': ops, 'nodes': 'tuple',
+                                   'node_seed': 0, 'n': n})
+        inputs += [v for i in inputs[:6] for v in c13_standin.amplify(i)]
+        out = c13_standin.eval_inputs(inf, inputs, std=400)
+        if out:
+            break
+    return out
 
 
 def replay(ctx, path):
@@ -1375,13 +1492,16 @@ def replay(ctx, path):
     for v in body.get('violations', []):
         ce = v.get('counterexample') or {}
         inp = ce.get('input') if 'input' in ce else ce
-        if isinstance(inp, dict) and inp.get('history'):
+        if isinstance(inp, dict) and 'standin' in inp:
+            from qv import c13_standin
+            bad += c13_standin.replay_input(inp)
+        elif isinstance(inp, dict) and inp.get('history'):
             r = eval_history(inp['history'], inp.get('nodes', 'tuple'), int(inp.get('n', 4)))
             print('replay history ->', r)
             bad += bool(r)
         elif isinstance(inp, dict) and inp.get('ops'):
             ops = typed_ops(inp)
-            r = eval_property_on_ops(ops)
+            r = eval_property_on_ops(ops, inp.get('nodes', 'obj'))
             print('replay ops ->', r)
             if r and r[0]:
                 bad += 1
